@@ -8,7 +8,7 @@ from .. import tlc
 from ..common import WORK, NPROC, pool_map
 from ..design import build, proj_package
 
-EMPTY_P = {"mods": {}, "order": [], "leaves": {}, "top": ""}
+EMPTY_P = {"mods": {}, "order": [], "leaves": {}, "exts": [], "top": ""}
 
 
 def run_design(args):
